@@ -32,17 +32,43 @@ Theorem C05_V : forall (kind : N) (rs : list (list N)),
 Proof. intros kind rs _. split; [apply V_record_iter_ok | apply V_rdw_iter_ok]. Qed.
 Print Assumptions C05_V.
 
-(* VB: every blocking (records of length >= 1, every block at most 65535 bytes, any number of records per block). *)
+(* VB: every blocking - every block at most 65535 bytes, any number of records per block (none included), records of
+   ANY length that fits, the empty record included at every position of a block (first, between others, last, a block
+   of empty records only), exactly as in V.  [legal_VB] = every block's length word is representable, nothing else.
+   The reader is the one of the current source: the comparison of its corruption check is Gen/RecfmParams.v
+   vb_rdw_fits_strict (offset + 4 <= len(block) since fix eee0fb2). *)
 Theorem C05_VB : forall (kind : N) (blocks : list (list (list N))),
   legal_VB blocks = true ->
   VB_record_iter kind (write_VB blocks) = (concat blocks, Done, [])
   /\ VB_rdw_iter kind (write_VB blocks) = (map rdw_rec (concat blocks), Done, [])
   /\ VB_bdw_iter kind (write_VB blocks) = (map write_block blocks, Done, []).
-Proof.
-  intros kind blocks H. split; [apply VB_record_iter_ok; exact H|].
-  split; [apply VB_rdw_iter_ok; exact H | apply VB_bdw_iter_ok].
-Qed.
+Proof. exact VB_iters_ok. Qed.
 Print Assumptions C05_VB.
+
+(* What fix eee0fb2 repaired.  With the strict comparison of the tree before it (offset + 4 < len(block)) the file of
+   ONE block holding the record 01 02 and then a record without data bytes is legal, and reading it back raises
+   AssertionError after the first record (record_iter and rdw_iter alike; the whole file has been consumed), so the
+   records read are not the records written; the same two records in the other order come back whole, and so does
+   the file itself under the comparison of the current tree.  (The specification's [legal_block] used to demand
+   non-empty records, which kept this input outside the theorem and outside the judged domain.) *)
+Theorem C05_VB_empty_last_old_refuted :
+  legal_VB [[[1; 2]; []]]%N = true
+  /\ VB_record_iter_with true 0 (write_VB [[[1; 2]; []]]%N) = ([[1; 2]]%N, Raised AssertionError, [])
+  /\ VB_rdw_iter_with true 0 (write_VB [[[1; 2]; []]]%N) = ([[0; 6; 0; 0; 1; 2]]%N, Raised AssertionError, [])
+  /\ VB_record_iter_with true 0 (write_VB [[[1; 2]; []]]%N) <> (concat [[[1; 2]; []]]%N, Done, [])
+  /\ VB_record_iter_with true 0 (write_VB [[[]; [1; 2]]]%N) = ([[]; [1; 2]]%N, Done, [])
+  /\ VB_record_iter_with false 0 (write_VB [[[1; 2]; []]]%N) = ([[1; 2]; []]%N, Done, []).
+Proof. exact VB_empty_last_old_refuted. Qed.
+Print Assumptions C05_VB_empty_last_old_refuted.
+
+(* The rule as it stood before the fix, as a statement about the old parameter value: under the strict comparison the
+   round trip holds for blocks of NON-EMPTY records (and, by the theorem above, not beyond). *)
+Theorem C05_VB_old_rule : forall (kind : N) (blocks : list (list (list N))),
+  forallb (forallb (fun r => 1 <=? length r)) blocks = true ->
+  VB_record_iter_with true kind (write_VB blocks) = (concat blocks, Done, [])
+  /\ VB_rdw_iter_with true kind (write_VB blocks) = (map rdw_rec (concat blocks), Done, []).
+Proof. exact VB_old_rule. Qed.
+Print Assumptions C05_VB_old_rule.
 
 (* N, the top-up refill, for EVERY buffer size B > 0 and element type: a consumer that announces the true
    length of each record (1 <= len <= B) is handed, at step i, a buffer that starts with record i; after the
@@ -94,7 +120,7 @@ Theorem C05_F_resume : forall (A : Type) (kind : N) (lrecl : nat) (rs1 rs2 : lis
 Proof. exact (@F_resume). Qed.
 Print Assumptions C05_F_resume.
 
-(* VB block-wise. *)
+(* VB block-wise (any blocks, empty records and empty blocks included). *)
 Theorem C05_VB_bdw_resume : forall (kind : N) (bs1 bs2 : list (list (list N))),
   B_take (S (length (write_VB (bs1 ++ bs2)))) (length bs1) kind (write_VB (bs1 ++ bs2))
   = (map write_block bs1, More, write_VB bs2).
@@ -152,6 +178,21 @@ Example C05_VB_example :
   /\ write_VB [[[193]; [194; 195]]; [[196]]]%N
      = [0; 15; 0; 0; 0; 5; 0; 0; 193; 0; 6; 0; 0; 194; 195; 0; 9; 0; 0; 0; 5; 0; 0; 196]%N.
 Proof. split; reflexivity. Qed.
+
+(* empty records: first in a block, between two others, last in a block, a block of empty records only, an empty
+   block; the hypothesis holds, the image is what a writer produces, and the reader of the current source returns
+   the seven records *)
+Example C05_VB_empty_example :
+  let blocks := [[[]; [193]; []; [194; 195]; []]; [[]; []]; []]%N in
+  legal_VB blocks = true
+  /\ write_VB blocks
+     = [0; 27; 0; 0;  0; 4; 0; 0;  0; 5; 0; 0; 193;  0; 4; 0; 0;  0; 6; 0; 0; 194; 195;  0; 4; 0; 0;
+        0; 12; 0; 0;  0; 4; 0; 0;  0; 4; 0; 0;
+        0; 4; 0; 0]%N
+  /\ VB_record_iter 0 (write_VB blocks) = ([[]; [193]; []; [194; 195]; []; []; []]%N, Done, [])
+  /\ expect_passes_VB [(0%N, Some 5); (1%N, Some 2); (0%N, None)] blocks
+     = Some [[[]; [193]; []; [194; 195]; []]; [[0; 4; 0; 0]; [0; 4; 0; 0]]; []]%N.
+Proof. repeat split; vm_compute; reflexivity. Qed.
 
 Example C05_N_example :
   legal_N 8 [[1; 1; 1; 1; 1]; [2; 2; 2; 2; 2]; [3; 3; 3; 3; 3]] = true
